@@ -240,6 +240,62 @@ func runGCase(gc GCase) (*Fail, []string, map[string]int, error) {
 				n.fixDrainer()
 				labels["attach:ok"]++
 			}
+		case "attachrace":
+			// two controllers (or a retried add) ask for the replica at the same time:
+			// it can be attached only while closed, so at most one of them gets it
+			if attached != nil {
+				break
+			}
+			type res struct {
+				b   types.Backend
+				err error
+			}
+			rc := make(chan res, 2)
+			gate := make(chan struct{})
+			for w := 0; w < 2; w++ {
+				go func(w int) {
+					<-gate
+					if w == 1 {
+						time.Sleep(time.Duration(op.Off) * 100 * time.Microsecond)
+					}
+					b, err := fac.Create(n.Addr)
+					rc <- res{b, err}
+				}(w)
+			}
+			close(gate)
+			r1, r2 := <-rc, <-rc
+			tr("#%d attachrace stagger=%dus (state %s) -> %v / %v", oi, op.Off*100, before.State, r1.err, r2.err)
+			labels["attachrace"]++
+			nok := 0
+			for _, r := range []res{r1, r2} {
+				if r.err == nil {
+					nok++
+				}
+			}
+			if nok == 2 || (nok == 1 && before.State != "closed") {
+				for _, r := range []res{r1, r2} {
+					if r.b != nil {
+						r.b.Close()
+					}
+				}
+				if nok == 2 {
+					return fail("attach|concurrent|both-accepted", "two backends were created at the same time against one replica (state before: "+before.State+"): it is attached twice", "C17", "C18"), trace, labels, nil
+				}
+				return fail("attach|state="+before.State+"|accepted", "a controller backend could be created against a replica in state "+before.State, "C17", "C18"), trace, labels, nil
+			}
+			if nok == 1 {
+				if r1.err == nil {
+					attached = r1.b
+				} else {
+					attached = r2.b
+				}
+				mode = "INIT"
+				n.fixDrainer()
+				labels["attach:ok"]++
+				labels["attachrace:one-won"]++
+			} else if before.State == "closed" {
+				return fail("attach|closed|refused", fmt.Sprintf("neither of two concurrent backend creations against a closed replica succeeded: %v / %v", r1.err, r2.err), "C17"), trace, labels, nil
+			}
 		case "detach":
 			if attached != nil {
 				attached.Close()
@@ -403,7 +459,7 @@ func genGCase(t *rapid.T) GCase {
 	total := int64(gc.Blocks) * 8
 	n := rapid.IntRange(4, 40).Draw(t, "nops")
 	for len(gc.Ops) < n {
-		k := rapid.SampledFrom([]string{"create", "open", "open", "close", "mode", "mode", "rebuilding", "reload", "snap", "snap", "attach", "attach", "detach",
+		k := rapid.SampledFrom([]string{"create", "open", "open", "close", "mode", "mode", "rebuilding", "reload", "snap", "snap", "attach", "attach", "attachrace", "detach",
 			"io", "io", "io", "io", "mgmt", "mgmt", "rest", "rest", "rest"}).Draw(t, "op")
 		op := GOp{K: k}
 		switch k {
@@ -416,6 +472,8 @@ func genGCase(t *rapid.T) GCase {
 			op.Off = rapid.Int64Range(0, total-1).Draw(t, "off")
 			op.Len = rapid.Int64Range(1, min64(total-op.Off, 24)).Draw(t, "len")
 			op.Seed = rapid.IntRange(1, 200).Draw(t, "seed")
+		case "attachrace":
+			op.Off = int64(rapid.SampledFrom([]int{0, 0, 2, 5, 10, 20, 40}).Draw(t, "stagger"))
 		case "mgmt":
 			op.Str = rapid.SampledFrom([]string{"removedisk", "prepareremove", "setrev"}).Draw(t, "mgmt")
 		case "rest":
